@@ -2,12 +2,13 @@
 // registration invariant of a collection (established by `register_shards`: proved preserved in U-SHREG): every table entry names a
 // shard of THIS collection, that shard's footer key is the collection's key, and the position is one the shard's own
 // chunk lookup table may name (U-SHQ `valid_pos`)
-spec fn coll_wf(c: KeyedShardCollection) -> bool {
-    forall|k: u64| c.chunk_lookup@.contains_key(k) ==> {
-        let e = #[trigger] c.chunk_lookup@[k];
-        &&& (e.shard_index as int) < c.shard_list@.len()
-        &&& c.shard_list@[e.shard_index as int].shard.metadata.chunk_hash_hmac_key == c.hmac_key
-        &&& direct_pre(file_bytes(*c.shard_list@[e.shard_index as int]), c.shard_list@[e.shard_index as int].shard, e.cas_start_index, e.cas_chunk_offset as u32)
+spec fn coll_wf(c: KeyedShardCollection) -> bool { coll_wf_parts(c.hmac_key, c.shard_list@, c.chunk_lookup@) }
+spec fn coll_wf_parts(key: MerkleHash, shards: Seq<Arc<MDBShardFile>>, lookup: Map<u64, ChunkCacheElement>) -> bool {
+    forall|k: u64| lookup.contains_key(k) ==> {
+        let e = #[trigger] lookup[k];
+        &&& (e.shard_index as int) < shards.len()
+        &&& shards[e.shard_index as int].shard.metadata.chunk_hash_hmac_key == key
+        &&& direct_pre(file_bytes(*shards[e.shard_index as int]), shards[e.shard_index as int].shard, e.cas_start_index, e.cas_chunk_offset as u32)
     }
 }
 // the invariant over the whole bookkeeper's collection list
